@@ -3,6 +3,7 @@ package main
 // C04: non-parsing entry points (exhaustive enumeration) and isolation (interleavings).
 
 import (
+	"bytes"
 	"fmt"
 	"os"
 	"os/exec"
@@ -439,4 +440,216 @@ func init() {
 		}
 		return nil
 	}
+}
+
+// ---- pairwise chunk interleaving: a parse suspended at ANY byte while another object parses ---------------
+//
+// Two sessions A and B, each delivering its own text in two chunks (cut a, cut b) to its own object and buffer.
+// For every pair of cuts the call orders A1 B1 A2 B2 and A1 B1 B2 A2 are executed (the orders in which a
+// suspended parse waits while the other object runs one or two calls; the remaining orders are these with the
+// roles swapped, covered because every ordered pair of texts is run) and both final results are compared with
+// the solo two-chunk parse. Exhaustive over cuts, deterministic, no threads involved.
+func pairInterleave[T any](r *Run, d *Driver[T], cfg Cfg, name string, texts [][]byte, st *Stats) {
+	d.init()
+	type res struct {
+		n   int
+		e   sipsp.ErrorHdr
+		obs []byte // fast observation key
+	}
+	two := func(o *T, buf []byte, cut int, phase int, offs *int, done *bool) (int, sipsp.ErrorHdr) {
+		// phase 1: first chunk; phase 2: rest (if still suspended)
+		if phase == 1 {
+			n, e, _ := d.safeStep(o, buf[:cut], 0, &cfg)
+			*offs = n
+			*done = !suspended(e)
+			return n, e
+		}
+		n, e, _ := d.safeStep(o, buf, *offs, &cfg)
+		return n, e
+	}
+	type job struct{ ia, ib int }
+	var jobs []job
+	for ia := range texts {
+		for ib := range texts {
+			jobs = append(jobs, job{ia, ib})
+		}
+	}
+	parallelFor(r, len(jobs), func(c *enumCtx, ji int) {
+		A := append([]byte(nil), texts[jobs[ji].ia]...)
+		B := append([]byte(nil), texts[jobs[ji].ib]...)
+		solo := func(buf []byte, cut int) res {
+			o := d.New(&cfg)
+			var offs int
+			var done bool
+			n, e := two(o, buf, cut, 1, &offs, &done)
+			if !done {
+				n, e = two(o, buf, cut, 2, &offs, &done)
+			}
+			return res{n, e, d.obsKey(o, buf, nil)}
+		}
+		kb := make([]byte, 0, 8192)
+		soloB := make([]res, len(B))
+		for b := 1; b < len(B); b++ {
+			soloB[b] = solo(B, b)
+		}
+		for a := 1; a < len(A); a++ {
+			sa := solo(A, a)
+			for b := 1; b < len(B); b++ {
+				for order := 0; order < 2; order++ {
+					oa, ob := d.New(&cfg), d.New(&cfg)
+					var offA, offB int
+					var doneA, doneB bool
+					na, ea := two(oa, A, a, 1, &offA, &doneA)
+					nb, eb := two(ob, B, b, 1, &offB, &doneB)
+					if order == 0 {
+						if !doneA {
+							na, ea = two(oa, A, a, 2, &offA, &doneA)
+						}
+						if !doneB {
+							nb, eb = two(ob, B, b, 2, &offB, &doneB)
+						}
+					} else {
+						if !doneB {
+							nb, eb = two(ob, B, b, 2, &offB, &doneB)
+						}
+						if !doneA {
+							na, ea = two(oa, A, a, 2, &offA, &doneA)
+						}
+					}
+					c.st.Transitions += 4
+					bad := ""
+					switch {
+					case na != sa.n || ea != sa.e:
+						bad = fmt.Sprintf("session A verdict %s, solo %s", verdictStr(na, ea), verdictStr(sa.n, sa.e))
+					case nb != soloB[b].n || eb != soloB[b].e:
+						bad = fmt.Sprintf("session B verdict %s, solo %s", verdictStr(nb, eb), verdictStr(soloB[b].n, soloB[b].e))
+					case !bytes.Equal(d.obsKey(oa, A, kb[:0]), sa.obs):
+						bad = "session A values differ from its solo parse"
+					case !bytes.Equal(d.obsKey(ob, B, kb[:0]), soloB[b].obs):
+						bad = "session B values differ from its solo parse"
+					}
+					if bad != "" {
+						cs := mkCase("pairinterleave", d.Name, &cfg, A, []int{a})
+						cs.Extra = map[string]any{"other": string(B), "cut_b": b, "order": order, "space": name}
+						r.Col.add(&Violation{Property: "C04", Site: "isolation/" + d.Name, Rule: "interleaved-equals-solo", Class: "suspended-parse-disturbed-by-another-object", Detail: bad, Case: cs})
+					}
+				}
+			}
+			c.st.Evals++
+		}
+		c.st.States++
+		c.st.Nontrivial++
+	})
+	_ = st
+}
+
+var pairReg = map[string]func(c *Case) []*Violation{}
+
+func regPair[T any](d *Driver[T]) {
+	pairReg[d.Name] = func(c *Case) []*Violation {
+		// re-execute exactly one (cut a, cut b, order) on fresh objects
+		cfg := *c.Cfg
+		A := c.input()
+		o, _ := c.Extra["other"].(string)
+		B := []byte(o)
+		a, b, order := c.Cuts[0], exInt(c.Extra, "cut_b"), exInt(c.Extra, "order")
+		run := func(interleaved bool) (string, string) {
+			oa, ob := d.New(&cfg), d.New(&cfg)
+			stepA := func(ph int, offs *int) (int, sipsp.ErrorHdr) {
+				if ph == 1 {
+					n, e, _ := d.safeStep(oa, A[:a], 0, &cfg)
+					*offs = n
+					return n, e
+				}
+				n, e, _ := d.safeStep(oa, A, *offs, &cfg)
+				return n, e
+			}
+			stepB := func(ph int, offs *int) (int, sipsp.ErrorHdr) {
+				if ph == 1 {
+					n, e, _ := d.safeStep(ob, B[:b], 0, &cfg)
+					*offs = n
+					return n, e
+				}
+				n, e, _ := d.safeStep(ob, B, *offs, &cfg)
+				return n, e
+			}
+			var offA, offB int
+			var na, nb int
+			var ea, eb sipsp.ErrorHdr
+			if !interleaved {
+				if na, ea = stepA(1, &offA); suspended(ea) {
+					na, ea = stepA(2, &offA)
+				}
+				if nb, eb = stepB(1, &offB); suspended(eb) {
+					nb, eb = stepB(2, &offB)
+				}
+			} else {
+				na, ea = stepA(1, &offA)
+				nb, eb = stepB(1, &offB)
+				if order == 0 {
+					if suspended(ea) {
+						na, ea = stepA(2, &offA)
+					}
+					if suspended(eb) {
+						nb, eb = stepB(2, &offB)
+					}
+				} else {
+					if suspended(eb) {
+						nb, eb = stepB(2, &offB)
+					}
+					if suspended(ea) {
+						na, ea = stepA(2, &offA)
+					}
+				}
+			}
+			return verdictStr(na, ea) + d.obs(oa, A), verdictStr(nb, eb) + d.obs(ob, B)
+		}
+		sa, sb := run(false)
+		ia, ib := run(true)
+		if sa != ia || sb != ib {
+			return []*Violation{{Property: "C04", Site: "isolation/" + d.Name, Rule: "interleaved-equals-solo", Class: "suspended-parse-disturbed-by-another-object", Case: c}}
+		}
+		return nil
+	}
+}
+
+func init() {
+	regPair(msgDrv)
+	regPair(hdrsDrv)
+	regPair(contactsDrv)
+	regPair(paisDrv)
+	regPair(uriParamsDrv)
+	regPair(uriHdrsDrv)
+	regPair(nameAddrDrv)
+	regPair(tokParamDrv)
+	replayers["pairinterleave"] = func(prop string, c *Case) []*Violation { return pairReg[c.Driver](c) }
+}
+
+func c04PairInterleave(r *Run) {
+	st := newStats()
+	rich := strs([]string{
+		"INVITE sip:a@b SIP/2.0\r\nFrom: \"A\" <sip:a@b>;tag=1\r\nTo: <sip:c@d>\r\nCall-ID: abc@1.2.3.4\r\nCSeq: 1 INVITE\r\nP-Asserted-Identity: <sip:p1@q>, \"P 2\" <sip:p2@q>, <tel:+3>;x=y, <sip:p4@q>\r\nContact: <sip:x@y>;expires=5, \"q,\" <sip:z@w>;q=0.5\r\nH1: 1\r\nH2: 2\r\nH3: 3\r\nH4: 4\r\nH5: 5\r\nVia: SIP/2.0/UDP h;branch=z9hG4bKabc\r\nm: <sip:late@c>;expires=9\r\nl: 2\r\n\r\nab",
+		"SIP/2.0 200 OK\r\nf: <sip:q@r>;tag=zz\r\nt: <sip:q@r>\r\ni: 99\r\nCSeq: 7 REGISTER\r\nP-Asserted-Identity: <sip:a@1>,<sip:b@2>,<sip:c@3>\r\nm: *\r\nX1: a\r\nX2: b\r\nX3: c\r\nX4: d\r\nX5: e\r\nX6: f\r\nExpires: 0\r\n\r\n",
+	})
+	pairInterleave(r, msgDrv, Cfg{HdrCap: -1, ValCap: -1}, "msg/builtin", rich, st)
+	pairInterleave(r, msgDrv, Cfg{HdrCap: 2, ValCap: 1}, "msg/small-arrays", rich, st)
+	hb := strs([]string{"P-Asserted-Identity: <sip:p1@q>, \"P 2\" <sip:p2@q>, <tel:+3>;x=y\r\nContact: <sip:x@y>;expires=5, \"q,\" <sip:z@w>;q=0.5, <sip:3@h>\r\nX: 1\r\nFrom: <sip:f@f>;tag=t\r\n\r\n",
+		"m: <sip:1@h>, <sip:2@h>\r\nP-Asserted-Identity: <sip:a@1>,<sip:b@2>,<sip:c@3>,<sip:d@4>\r\nY: 2\r\nZ: 3\r\n\r\n"})
+	pairInterleave(r, hdrsDrv, Cfg{HdrCap: 1, ValCap: 0, WithVals: true}, "hdrs/overflow", hb, st)
+	lists := strs([]string{"<sip:a@b>;expires=5, \"q,\" <sip:c@d>;q=0.5, sip:e@f;x=\"y z\"\r\nX", "n <sip:g@h>;tag=t, <sip:1@h>,<sip:2@h>;lr\r\nX"})
+	for _, vc := range []int{-1, 0, 1} {
+		pairInterleave(r, contactsDrv, Cfg{HdrCap: -1, ValCap: vc}, "contacts", lists, st)
+	}
+	pairInterleave(r, paisDrv, Cfg{HdrCap: -1, ValCap: -1}, "pais", lists, st)
+	pairInterleave(r, nameAddrDrv, Cfg{HdrType: int(sipsp.HdrContact)}, "name-addr", lists, st)
+	pl := strs([]string{"transport=udp;x = \"q\\\"r\";lr;maddr=m?h", "a;b=1;ttl=5;y=\"z\" ;c\r\nX"})
+	for _, vc := range []int{-1, 0, 1, 8} {
+		pairInterleave(r, uriParamsDrv, Cfg{HdrCap: -1, ValCap: vc, Flags: uint(sipsp.POptTokQmTermF)}, "uriparams", pl, st)
+	}
+	hl := strs([]string{"a=1&b = \"q\\\"r\"&c&d=4\r\nX", "h1=v1&h2=\"x y\"&h3\r\nX"})
+	for _, vc := range []int{-1, 0, 1} {
+		pairInterleave(r, uriHdrsDrv, Cfg{HdrCap: -1, ValCap: vc}, "urihdrs", hl, st)
+	}
+	pairInterleave(r, tokParamDrv, Cfg{Flags: uint(sipsp.POptTokCommaTermF)}, "tokparam", pl, st)
+	r.Bounds["pair_interleaving"] = "every (cut a, cut b) of every ordered pair of texts per driver, orders A1 B1 A2 B2 and A1 B1 B2 A2, compared with the solo two-chunk parses"
 }
